@@ -79,6 +79,29 @@ static std::string run_cross(int kidx, int algi, int lprov, int sprov, int vprov
   return "";
 }
 
+// (1)+(5) after a key rotation: with a recycling allocator (jwt_set_alloc) key A is loaded, used under both providers and freed; key B of the
+// same type lands where A's item was. Both providers must judge A's and B's tokens under B exactly alike (and as the reference does).
+static std::string run_rotation(int pi, int lprov, int first, std::string *desc) {
+  struct Pair { const char *a, *b; jwt_alg_t alg; };
+  static const Pair pairs[] = {{"rsa_2048", "rsa_2048b", JWT_ALG_RS256}, {"rsa_2048", "rsa_2048b", JWT_ALG_PS384}, {"ec_p256", "ec_p256b", JWT_ALG_ES256}, {"ec_p384", "ec_p384b", JWT_ALG_ES384}, {"ec_p521", "ec_p521b", JWT_ALG_ES512},
+                               {"ed25519", "ed25519b", JWT_ALG_EDDSA}, {"ed448", "ed448b", JWT_ALG_EDDSA}, {"oct64", "oct64b", JWT_ALG_HS256}, {"oct64", "oct64b", JWT_ALG_HS512}};
+  const Pair &pr = pairs[pi % (int)(sizeof(pairs) / sizeof(pairs[0]))];
+  *desc = "{\"kind\":\"rotation\",\"pair\":" + std::to_string(pi) + ",\"a\":\"" + pr.a + "\",\"b\":\"" + pr.b + "\",\"alg\":\"" + jwt_alg_str(pr.alg) + "\",\"load_provider\":" + std::to_string(lprov) + ",\"first_verifier\":" + std::to_string(first) + "}";
+  const KeySpec &A = POOL.get(pr.a), &B = POOL.get(pr.b); bool oct = A.kind == K_OCT;
+  std::string hdr = std::string("{\"alg\":\"") + jwt_alg_str(pr.alg) + "\"}", tokA = ref_token(A, pr.alg, hdr, "{\"k\":\"A\"}"), tokB = ref_token(B, pr.alg, hdr, "{\"k\":\"B\"}");
+  auto judge = [&](int prov, const jwk_item_t *it, const std::string &tok) { set_provider(prov); jwt_checker_t *ch = jwt_checker_new(); int r = jwt_checker_setkey(ch, pr.alg, it) ? -1 : (jwt_checker_verify(ch, tok.c_str()) ? 1 : 0); jwt_checker_free(ch); return r; };
+  set_provider(lprov); jwt_set_alloc(recycle_malloc, recycle_free); std::string bad; const void *addrA = nullptr, *addrB = nullptr;
+  { JwkOpts o; o.priv = oct; o.kid = "rot"; LKey ka(jwk_json(A, o)); addrA = ka.item; if (ka.item) { for (int i = 0; i < 2; i++) if (judge(i ? 1 - first : first, ka.item, tokA) != 0) bad = "first-key-rejects-its-own-token"; } set_provider(lprov); }
+  if (bad.empty()) { set_provider(lprov); JwkOpts o; o.priv = oct; o.kid = "rot"; LKey kb(jwk_json(B, o)); addrB = kb.item;
+    if (kb.item) for (int i = 0; i < 2 && bad.empty(); i++) { int pv = i ? 1 - first : first;
+      if (judge(pv, kb.item, tokA) == 0) bad = std::string("after-rotation:accepts-token-of-the-previous-key:") + prov_name(pv);
+      else if (judge(pv, kb.item, tokB) != 0) bad = std::string("after-rotation:rejects-token-of-the-current-key:") + prov_name(pv); }
+    set_provider(lprov); }
+  jwt_set_alloc(NULL, NULL);
+  if (addrA && addrA == addrB) stats().cls("rotation:item-address-reused");
+  return bad;
+}
+
 // (4) provider switching
 static std::string run_names(const std::string &name, int start, std::string *desc) {
   *desc = "{\"kind\":\"name\",\"name\":" + jstr(name) + ",\"start\":" + std::to_string(start) + "}";
@@ -129,6 +152,7 @@ int main(int argc, char **argv) {
     if (kind == "name") r = run_names(from_latin1_utf8(json_string_value(json_object_get(j.p, "name"))), gi("start"), &d);
     else if (kind == "id") r = run_ids(gi("id"), gi("start"), &d);
     else if (kind == "env") r = run_env(argv[0], from_latin1_utf8(json_string_value(json_object_get(j.p, "value"))), &d);
+    else if (kind == "rotation") r = run_rotation(gi("pair"), gi("load_provider"), gi("first_verifier"), &d);
     else if (kind == "cross") { const char *tk = json_string_value(json_object_get(j.p, "token")); r = run_cross(gi("kidx"), gi("algi"), gi("load_provider"), gi("sign_provider"), gi("verify_provider"), gi("salt"), &d, tk ? from_latin1_utf8(tk) : ""); }
     else { Case c; c.cfg = gi("cfg"); c.pay = 0; std::string kn = json_string_value(json_object_get(j.p, "key")), an = json_string_value(json_object_get(j.p, "alg")); c.key = -1; for (size_t i = 0; i < KEYS.size(); i++) if (KEYS[i]->name == kn) c.key = (int)i; if (c.key < 0) { KEYS.push_back(&POOL.get(kn)); c.key = (int)KEYS.size() - 1; }
       c.algi = 0; for (int i = 0; i < NALGS; i++) if (an == ALGS[i].name) c.algi = i; c.token = from_latin1_utf8(json_string_value(json_object_get(j.p, "token"))); r = run_verdict_case(c, false); }
@@ -151,6 +175,10 @@ int main(int argc, char **argv) {
       std::string d, r = run_cross(cell.first, cell.second, l, s, v2, rep + (int)a.seed * 100, &d); st.evaluations++; st.cls("cross-provider-cells"); if (st.want_sample()) st.sample(d); if (s != v2 || l != s) st.nontrivial_distinct();
       if (!r.empty()) st.violation("C12:" + r, "cross-provider use fails: " + d, d);
     } }
+  // ---- key rotation at the same address
+  { int idx = 0; for (int pi = 0; pi < 9; pi++) for (int l = 0; l < 2; l++) for (int f = 0; f < 2; f++) { if ((idx++ % a.nworkers) != a.worker) continue;
+      std::string d, r = run_rotation(pi, l, f, &d); st.evaluations++; st.cls("key-rotation-cells"); st.nontrivial(mix(fnv("rot"), mix(pi, l * 2 + f)));
+      if (!r.empty()) st.violation("C12:" + r, "providers disagree after a key rotation: " + d, d); } }
   // ---- ECDSA volume: each provider must accept the other's signatures also when r or s is short (1/128 per signature)
   { int per = a.thorough() ? 2500 : 220;
     for (auto &cell : cells) { const KeySpec &k = *KEYS[cell.first]; if (k.kind != K_EC) continue; int nn = k.bits == 521 ? per * 2 : per;   // P-521: the top octet holds one bit, so a half that lacks TWO octets occurs once in 512 signatures - enough of them to see it many times
